@@ -294,6 +294,7 @@ def run(facts):
             else:
                 res.bad(key, b.loc(x["bi"]), x["text"])
     returns_only_when_done(res, facts)
+    getters_move_once(res, facts)
     res.floor("try_* readers", n, 60)
     res.floor("panic sites with a TryGetError", n_pan, 3)
     return res
@@ -336,3 +337,50 @@ def returns_only_when_done(res, facts):
                 "->bb".join(str(x) for x in bad), "rest of the source" if kind == "slice" else "count left", "empty" if kind == "slice" else "zero"))
         else:
             res.ok(key, b.loc(), "%d returning path(s), each with the work left known to be empty / zero" % n, nontrivial=True)
+
+
+def getters_move_once(res, facts):
+    """a panicking getter of the `Buf` trait (`get_u16` .. `get_f64`, `get_uint` ..) either has the bytes or panics with the cursor where it was
+    (C13: after the panic is caught every handle still has its previous contents): on every path it moves the cursor through `self` at most once
+    - the delegate to its `try_` twin, one `copy_to_slice`, one `advance` - unless `remaining()` was compared with the size before the first
+    move.  A getter that assembles its value with repeated `get_u8()` eats what is there and then panics."""
+    from .flow import cfg_of, canon, ExprBuilder, walk
+    from .logic import Ctx
+    n = 0
+    for b in facts.fn_bodies():
+        if facts.is_test(b) or b.kind != "assoc_fn" or not b.id.startswith("buf::buf_impl::Buf::get_") or b.id.endswith(("get_ref", "get_mut")):
+            continue
+        eb = ExprBuilder(b, facts, inline=False)
+        cfg = cfg_of(b)
+        moves = []
+        for bi, t in b.calls():
+            fn = callee(t)
+            if fn is None or b.blocks[bi]["cleanup"] or not t["args"]:
+                continue
+            nm = fn["name"]
+            if not (nm in ("advance", "copy_to_slice", "copy_to_bytes", "try_copy_to_slice") or nm.startswith(("get_", "try_get_"))) or nm in ("get_ref", "get_mut"):
+                continue
+            a0 = canon(eb.operand(t["args"][0], (bi, len(b.blocks[bi]["stmts"]))))
+            while isinstance(a0, tuple) and a0 and a0[0] in ("ref", "deref"):
+                a0 = a0[1]
+            if a0 == ("param", 1):
+                moves.append(bi)
+        if not moves:
+            continue
+        n += 1
+        key = "%s|moves the cursor once or behind a remaining() check" % b.id
+        multi = [m for m in moves if cfg.reaches(m, m) or any(m2 != m and cfg.reaches(m, m2) for m2 in moves)]
+        bad = None
+        for m in multi:
+            rels = Ctx(b, m, facts).rels
+            guarded = any(r and r[0] in ("le", "lt") and len(r) > 2 and isinstance(r[2], tuple) and any(
+                isinstance(y, tuple) and y and y[0] in ("call", "ucall") and str(y[1]).rsplit("::", 1)[-1] == "remaining" for y in walk(canon(r[2]))) for r in rels)
+            if not guarded:
+                bad = m
+                break
+        if bad is not None:
+            res.bad(key, b.loc(bad), "the cursor is moved more than once on a path (bb%d is followed by another consuming call) and no `.. <= remaining()` check comes first: "
+                                     "a short buffer is eaten before the panic" % bad)
+        else:
+            res.ok(key, b.loc(), "%d consuming call(s), at most one per path (or guarded)" % len(moves), nontrivial=True)
+    res.floor("panicking getters of Buf", n, 6)
